@@ -146,4 +146,18 @@ CHECKS = {
         thorough=[R("^TestFixed$", 1, 1, 400), R("^TestHistories$", 250, 15, 3000, shrinktime="120s")],
         floors={"concurrent-batch": ("TestHistories", 0.3), "illegal-request": ("TestHistories", 0.3)},
     ),
+    "C03": dict(
+        pkg="./props/c03", bins=["./cmd/simcore"], level="fault_enumeration",
+        rule=("whole core against the simulated world; rapid-generated workflows (1-5 tasks on 1-3 hosts, mixed criticality, optionally nested in "
+              "aggregators), live state CONFIGURED or RUNNING, a victim task, a failure kind (TASK_FAILED, TASK_LOST, TASK_KILLED, TASK_FINISHED, "
+              "executor FAILURE, agent FAILURE, TASK_INTERNAL_ERROR device event) and an instant (idle, while a START/STOP is parked on a gated "
+              "reply of another task, right after a transition returned); plus the full kind x state x criticality matrix as fixed cases. "
+              "Oracle: any affected critical task => ERROR within 15 s, stays ERROR, never RUNNING again, end of run recorded "
+              "(run_end_time_ms and a run event); only non-critical tasks affected => state unchanged after 1.5 s. Every case is non-trivial; "
+              "distinct = distinct (shape, state, victim criticality, kind, instant) digests."),
+        assumptions=["'bounded time' is taken as 15 s (the mechanism's own delay is 0.5 s)",
+                     "executor/agent failures affect every task sharing that executor/agent, as in Mesos"],
+        quick=[R("^(TestFixedMatrix|TestCanary.*)$", 1, 1, 900), R("^TestFaults$", 9, 10, 900, shrinktime="90s")],
+        thorough=[R("^(TestFixedMatrix|TestCanary.*)$", 1, 1, 900), R("^TestFaults$", 150, 15, 3400, shrinktime="180s")],
+    ),
 }
